@@ -117,6 +117,11 @@ public:
         {
             m_resetFunctor(*iterator);
         }
+
+        // Every object is available again.  Objects that were still
+        // checked out (the owner was unwound by an exception) would
+        // otherwise never be handed out again.
+        m_numObjectsOnStack = 0;
     }
 
 #if defined(XALAN_C_VERIF_HOOKS)
